@@ -151,6 +151,9 @@ inductive Op
   | loadres (scratch : Bool) (res : String) (ths : List UInt32)
       -- `LoadRulesOfResource` (`[]` = `ClearRulesOfResource`); `scratch`: through the caller's one reused slice (`sloadres`)
   | poke (res : String) (idx : Nat) (thr : UInt32) -- the caller edits `Threshold` of a loaded (valid) rule object in place
+  | ghost (id : Nat)
+      -- `Exit` of an entry one of whose exit handlers **panics**: as the code has it, `Exit` recovers before `SlotChain.exit`, the
+      -- completion never runs and the entry's unit of the gauge is never given back, while the caller's handle is finished
   | getrules (res : String)                        -- `GetRulesOfResource`
   | getall                                         -- `GetRules`
   | entry (id : Nat) (res : String) (b : UInt32)
@@ -237,10 +240,18 @@ def resOfId (live : List (Nat × String)) (id : Nat) : Option String := (live.fi
 def schedHandles (id0 : Nat) (res : String) (th : List Pc) : List (Nat × String) :=
   (th.zipIdx.filter fun p => p.1 = .inflight).map fun p => (id0 + p.2, res)
 
+/-- an id no handle uses (ids given by the harness are below 2^40) -/
+def freshId (live : List (Nat × String)) : Nat := live.foldl (fun m p => max m (p.1 + 1)) 1099511627776
+
+/-- the entry stays in flight for ever under an id nobody can name -/
+def ghostLive (live : List (Nat × String)) (id : Nat) : List (Nat × String) :=
+  live.map fun p => if p.1 = id then (freshId live, p.2) else p
+
 def step (s : St) : Op → St × Out
   | .load rs => ({ s with rules := loadRules rs }, .none)
   | .loadres _ res ths => ({ s with rules := loadResRules s.rules res ths }, .none)     -- whatever slice the caller used
   | .poke res idx thr => ({ s with rules := pokeRules s.rules res idx thr }, .none)
+  | .ghost id => ({ s with live := ghostLive s.live id }, .none)
   | .getrules res => (s, .rules (rulesOf s.rules res))
   | .getall => (s, .allrules s.rules)
   | .entry id res b =>
@@ -281,6 +292,7 @@ def specStep (s : SpecSt) : Op → SpecSt × Out
   | .load rs => ({ s with rules := loadRules rs, ideal := loadRules rs }, .none)
   | .loadres _ res ths => ({ s with rules := loadResRules s.rules res ths, ideal := loadResRules s.ideal res ths }, .none)
   | .poke res idx thr => ({ s with rules := pokeRules s.rules res idx thr, ideal := pokeRules s.ideal res idx thr }, .none)
+  | .ghost id => ({ s with live := ghostLive s.live id }, .none)
   | .getrules res => (s, .rules (rulesOf s.rules res))
   | .getall => (s, .allrules s.rules)
   | .entry id res b =>
